@@ -728,13 +728,20 @@ class Lexer(object):
     patt_plain_identifier = re.compile(plain_identifier + r'$', flags=re.U)
     patt_unicode_escape = re.compile(r'\\u([0-9a-fA-F]{4})')
 
-    getprop = r'get' + r'(?=\s' + identifier + r')'
+    # what may follow the get / set of an accessor property: white space,
+    # line terminators or comments and an identifier name, or (with or
+    # without them) a string or numeric literal as the property name.
+    accessor_name = (
+        r'(?=' + PATT_TOKEN_SEPARATORS.pattern[:-1] + r'+' + identifier +
+        r'|' + PATT_TOKEN_SEPARATORS.pattern + r'''(?:["']|\.?[0-9]))'''
+    )
+    getprop = r'get' + accessor_name
 
     @ply.lex.TOKEN(getprop)
     def t_GETPROP(self, token):
         return token
 
-    setprop = r'set' + r'(?=\s' + identifier + r')'
+    setprop = r'set' + accessor_name
 
     @ply.lex.TOKEN(setprop)
     def t_SETPROP(self, token):
